@@ -710,8 +710,14 @@ func finish(total *Env, start time.Time, run func(e *Env)) int {
 		}
 	}
 	writeEvidence(total, start, int64(len(viol)), hit)
-	fmt.Printf("%s %s: evaluations=%d distinct=%d nontrivial=%d outcomes=%d violations=%d known_findings_hit=%d exhaustive=%v wall=%.1fs\n",
+	line := fmt.Sprintf("%s %s: evaluations=%d distinct=%d nontrivial=%d outcomes=%d violations=%d known_findings_hit=%d exhaustive=%v wall=%.1fs\n",
 		id, total.Tier, m.Evaluations, m.Distinct, m.Nontrivial, len(m.Outcomes), len(viol), len(hit), len(m.Incomplete) == 0, time.Since(start).Seconds())
+	fmt.Print(line)
+	if os.Getenv("VERIF_REPO") == "" {
+		// last summary line per tier (the evidence file only holds the most recent run of either tier)
+		_ = os.MkdirAll(filepath.Join(Root, "summary"), 0o755)
+		_ = os.WriteFile(filepath.Join(Root, "summary", id+"."+total.Tier+".txt"), []byte(line), 0o644)
+	}
 	return exit
 }
 
